@@ -380,6 +380,18 @@ pub fn pool_histories(out: &mut Out, rng: &mut Rng, n: u64) {
             Op::Withdraw { u: 0, amount: 1_000_000_000 },
             Op::Collect,
         ]) },
+        // a collection while one asset's pending fee is above the 1000-unit minimum and another's is between 1 and 1000
+        History { amp: 100, fees: (DEC / 1000, 3 * DEC / 1000, 0), kinds: [false, false, true], len: 0, fixed: Some(vec![
+            Op::Provide { u: 0, d: [1_000_000_000, 1_000_000_000, 1_000_000_000] },
+            Op::Swap { u: 1, i: 0, j: 1, x: 5_000_000, ms: None },      // ~5000 pending on asset 1
+            Op::Swap { u: 2, i: 1, j: 2, x: 300_000, ms: None },        // ~300 pending on asset 2
+            Op::Swap { u: 2, i: 2, j: 0, x: 1_000_300, ms: None },      // ~1000 pending on asset 0 (around the boundary)
+            Op::Collect,
+            Op::Collect,
+            Op::Swap { u: 1, i: 0, j: 2, x: 800_000, ms: None },        // asset 2 now ~1100: collectable
+            Op::Collect,
+            Op::Withdraw { u: 0, amount: 500_000_000 },
+        ]) },
     ];
     for h in corpus { run_history(out, rng, &h); }
     for _ in 0..n {
